@@ -458,7 +458,16 @@ def run_c12(chk, F, G_):
                   "are given a CONSTANT type on every path to add_symbol; reference parameters are gated on "
                   "isModifiableLValue / isUniqueReference")
     fn = _fn(F, "isModifiableLValue")
-    cases = switch_cases(fn)
+    try:
+        cases = switch_cases(fn)
+    except AnalysisBroken:
+        cases = None        # restructured (e.g. a wrapper): the semantic rule R-LVSHAPE decides it
+    if cases is not None:
+        _c12_syntactic(chk, F, fn, cases, rid)
+    _c12_rest(chk, F, rid)
+
+
+def _c12_syntactic(chk, F, fn, cases, rid):
     leaf_ok = False
     for labels, stmts in cases:
         body = {"k": "block", "s": stmts}
@@ -481,6 +490,9 @@ def run_c12(chk, F, G_):
                                 for n in walk({"k": "block", "s": st})) for st in dflt)
     chk.ob(rid, "isModifiableLValue|default", ok, "isModifiableLValue's default is not `return false`",
            "%s:%s" % (fn["file"], fn["line"]))
+
+
+def _c12_rest(chk, F, rid):
     # is_mutable / is_constant: CONSTANT sticky
     for mname, want in (("is_mutable", False), ("is_constant", True)):
         m = F.fn("UTAP::type_t::" + mname)
@@ -531,3 +543,244 @@ def run_c12(chk, F, G_):
 
 
 WRITE_KINDS_CACHE = set()
+
+
+# ---------------------------------------------------------------------------------------- R-LVSHAPE
+LV_COMPOSITES = {"DOT": 1, "ARRAY": 2, "INLINE_IF": 3, "COMMA": 2}
+
+
+def lvalue_shape(F, write_kinds_):
+    """Which children decide isModifiableLValue(K(children)), found semantically: the predicate is
+    evaluated (tables.Evaluator, structural recursion) on K applied to IDENTIFIER leaves whose
+    mutability is controlled.  Returns {K: set(child indices whose constness forces `false`)},
+    plus {K: can be true at all}."""
+    from ..tables import Evaluator, ExprV, TypeV, NeedAtom, enumerate_outcomes
+    fn = F.fn("UTAP::TypeChecker::isModifiableLValue")
+
+    def leaf(name, mutable):
+        e = ExprV(name, "INT", "IDENTIFIER")
+        e.type = TypeV("INT", (name, "mutable" if mutable else "const"))
+        return e
+
+    def run_with(kind, muts):
+        def run(a):
+            ev = Evaluator(F, a)
+            ev.structural = True
+            children = {i: leaf("c%d" % i, m) for i, m in enumerate(muts)}
+            top = ExprV("top", "INT", kind, children)
+            a2 = dict(a)
+            v = ev.run_fn(fn, {fn["params"][0]["name"]: top})
+            if hasattr(v, "key"):
+                v = ev.atom(v.key)
+            return bool(v)
+        # is_mutable atoms are decided by the leaf's tag
+        def run_tagged(a):
+            try:
+                return run(a)
+            except NeedAtom as na:
+                k = na.key
+                flat = repr(k)
+                if "is_mutable" in flat:
+                    val = "'mutable'" in flat and "'const'" not in flat
+                    if "'const'" in flat:
+                        val = False
+                    b = dict(a)
+                    b[k] = val
+                    return run_tagged(b)
+                if "is_constant" in flat:
+                    b = dict(a)
+                    b[k] = "'const'" in flat
+                    return run_tagged(b)
+                raise
+        return {oc for _, oc in enumerate_outcomes(run_tagged)}
+
+    shape, possible = {}, {}
+    for K, n in LV_COMPOSITES.items():
+        allmut = run_with(K, [True] * n)
+        possible[K] = True in allmut
+        dec = set()
+        for i in range(n):
+            muts = [True] * n
+            muts[i] = False
+            if True not in run_with(K, muts):
+                dec.add(i)
+        shape[K] = dec
+    extra = {}
+    for tag, mut in (("mutable", True), ("const", False)):
+        def run_leaf(a, mut=mut, tag=tag):
+            ev = Evaluator(F, a)
+            ev.structural = True
+            top = ExprV("top", "INT", "IDENTIFIER")
+            top.type = TypeV("INT", ("top", tag))
+            try:
+                v = ev.run_fn(fn, {fn["params"][0]["name"]: top})
+                if hasattr(v, "key"):
+                    v = ev.atom(v.key)
+                return bool(v)
+            except NeedAtom as na:
+                flat = repr(na.key)
+                if "is_mutable" in flat:
+                    b = dict(a)
+                    b[na.key] = mut
+                    return run_leaf(b)
+                raise
+        extra["IDENTIFIER|" + tag] = {oc for _, oc in enumerate_outcomes(run_leaf)}
+    for K, n in (("PLUS", 2), ("FUN_CALL", 2), ("CONSTANT", 0)):
+        extra[K] = run_with(K, [True] * n)
+    shape["__extra__"] = extra
+    return shape, possible
+
+
+def get_symbols_shape(F):
+    """{K: set(child indices whose symbols are collected)} and whether IDENTIFIER inserts its own symbol."""
+    fn = F.fn("UTAP::expression_t::get_symbols")
+    out, ident = {}, False
+    for labels, stmts in switch_cases(fn):
+        body = {"k": "block", "s": stmts}
+        idx = set()
+        for c in calls(body, "get_symbols"):
+            r = c.get("recv") or {}
+            if r.get("k") == "call" and r.get("name") == "get" and r.get("args") and r["args"][0].get("k") == "int":
+                idx.add(r["args"][0]["v"])
+        for lb in labels:
+            out[lb] = idx
+        if "IDENTIFIER" in labels:
+            ident = any(c.get("name") == "insert" for c in calls(body))
+    return out, ident, fn
+
+
+SPEC_LV = {"DOT": {0}, "ARRAY": {0}, "INLINE_IF": {1, 2}, "COMMA": {1}}
+
+
+def run_lvshape(chk, F, G_, parts):
+    rid = "R-LVSHAPE"
+    chk.rule(rid, "the l-value structure is the same everywhere: isModifiableLValue(K(..)) is false as soon as a "
+                  "child that carries the written object is constant (DOT/ARRAY: child 0, INLINE_IF: both branches, "
+                  "COMMA: last) - decided by evaluating the predicate on K applied to const/mutable identifier "
+                  "leaves; and expression_t::get_symbols collects the symbols of exactly those children, so that a "
+                  "write through any of them reaches the may-write set")
+    akinds, incdec = write_kinds(F, G_)
+    if "modifiable" in parts:
+        shape, possible = lvalue_shape(F, akinds | incdec)
+        for K, want in SPEC_LV.items():
+            for i in sorted(want):
+                chk.ob(rid, "isModifiableLValue|%s|child%d" % (K, i), i in shape[K],
+                       "isModifiableLValue accepts %s(...) although child %d is a constant: a write through that "
+                       "operand modifies a constant" % (K, i), "src/typechecker.cpp",
+                       sample="%s with const child %d is not modifiable" % (K, i))
+            chk.ob(rid, "isModifiableLValue|%s|mutable-twin" % K, possible[K],
+                   "isModifiableLValue rejects %s(...) even when every child is mutable" % K, "src/typechecker.cpp")
+        ex = shape["__extra__"]
+        chk.ob(rid, "isModifiableLValue|IDENTIFIER|const", ex["IDENTIFIER|const"] == {False},
+               "isModifiableLValue accepts an identifier whose type is not mutable", "src/typechecker.cpp")
+        chk.ob(rid, "isModifiableLValue|IDENTIFIER|mutable", ex["IDENTIFIER|mutable"] == {True},
+               "isModifiableLValue rejects a mutable identifier", "src/typechecker.cpp")
+        for K in ("PLUS", "FUN_CALL", "CONSTANT"):
+            chk.ob(rid, "isModifiableLValue|%s" % K, ex[K] == {False},
+                   "isModifiableLValue accepts a %s expression as a modifiable l-value" % K, "src/typechecker.cpp")
+    if "symbols" in parts:
+        gshape, ident, gfn = get_symbols_shape(F)
+        where = "%s:%s" % (gfn["file"], gfn["line"])
+        chk.ob(rid, "get_symbols|IDENTIFIER", ident, "get_symbols does not record the symbol of an IDENTIFIER", where)
+        for K, want in SPEC_LV.items():
+            have = gshape.get(K, set())
+            for i in sorted(want):
+                chk.ob(rid, "get_symbols|%s|child%d" % (K, i), i in have,
+                       "expression_t::get_symbols does not collect the symbols of child %d of %s: a write whose "
+                       "target is %s(...) does not record that operand, so a function writing a non-local through it "
+                       "has an empty may-write set" % (i, K, K), where,
+                       sample="get_symbols(%s) collects child %d" % (K, i))
+        for k in sorted(akinds | {"PRE_INCREMENT", "PRE_DECREMENT"}):
+            chk.ob(rid, "get_symbols|%s|child0" % k, 0 in gshape.get(k, set()),
+                   "expression_t::get_symbols does not follow the target of %s (itself an l-value)" % k, where)
+
+
+# ---------------------------------------------------------------------------------------- R-RESTRICTED (C13)
+def run_restricted(chk, F):
+    rid = "R-RESTRICTED"
+    chk.rule(rid, "free process parameters in array sizes: collectDependencies is a transitive closure (the reads of "
+                  "every newly added symbol's initialiser are fed back into the work list the loop drains); array "
+                  "sizes and scalar-set sizes of template-local types are added to the template's restricted set; "
+                  "instantiation propagates restriction through arguments; visitProcess rejects a restricted unbound "
+                  "parameter")
+    impls = [f for f in F.fns("UTAP::StatementBuilder::collectDependencies") + F.fns("collectDependencies")
+             if any("expression_t" in p["ct"] for p in f["params"])]
+    if len(impls) < 2:
+        raise AnalysisBroken("collectDependencies(set&, expression_t): expected 2 implementations, found %d" % len(impls))
+    for fn in impls:
+        tag = "%s@%s" % (fn["q"].split("::")[-1], fn["file"].split("/")[-1])
+        dep = fn["params"][0]["name"]
+        ok, why = False, "no draining loop found"
+        for n in walk(fn["body"]):
+            if n.get("k") != "while":
+                continue
+            cond = short(n["c"])
+            # work list W: the set whose emptiness controls the loop
+            wl = [c for c in calls(n["c"], "empty")]
+            if not wl:
+                continue
+            W = (wl[0].get("recv") or {}).get("name")
+            feeds = [c for c in calls(n["body"], "collect_possible_reads")
+                     if c.get("args") and c["args"][0].get("k") == "ref" and c["args"][0].get("name") == W]
+            takes = any(c.get("name") in ("begin", "erase", "extract", "pop_back", "back") and
+                        (c.get("recv") or {}).get("name") == W for c in calls(n["body"]))
+            adds = any(c.get("name") == "insert" and (c.get("recv") or {}).get("name") == dep for c in calls(n["body"]))
+            seeded = any(c.get("name") == "collect_possible_reads" and c.get("args") and
+                         c["args"][0].get("name") == W for c in calls(fn["body"]) if not any(c is x for x in walk(n)))
+            if feeds and takes and adds and seeded and W != dep:
+                ok = True
+            else:
+                why = "loop over `%s`: feeds-back=%s takes-next=%s adds-to-result=%s seeded=%s" % (
+                    W, bool(feeds), takes, adds, seeded)
+        if not ok:
+            # the other closure idiom: direct recursion on the initialiser of each new symbol
+            for c in calls(fn["body"], fn["name"]):
+                if len(c.get("args", [])) == 2 and "init" in short(c["args"][1]) and \
+                        short(c["args"][0]) == dep:
+                    ok = True
+        chk.ob(rid, "closure|%s" % tag, ok,
+               "%s is not a transitive closure over initialisers (%s): a parameter reaching an array size through a "
+               "chain of two or more initialisers is not restricted" % (fn["q"], why),
+               "%s:%s" % (fn["file"], fn["line"]))
+    tfn = [f for f in F.fns("UTAP::StatementBuilder::collectDependencies") if any("type_t" in p["ct"] for p in f["params"])]
+    if tfn:
+        t = tfn[0]
+        rng = any(n.get("k") == "if" and "RANGE" in short(n["c"]) and
+                  len(calls(n["then"], "collectDependencies")) >= 3 for n in walk(t["body"]))
+        kids = any(n.get("k") == "for" and calls(n["body"], "collectDependencies") for n in walk(t["body"]))
+        chk.ob(rid, "closure|types", rng and kids,
+               "collectDependencies(type) does not cover both range bounds, the ranged type and all sub-types",
+               "%s:%s" % (t["file"], t["line"]))
+    for q, arg in (("UTAP::StatementBuilder::type_array_of_type", "size"), ("UTAP::ExpressionBuilder::type_scalar", "upper")):
+        fn = F.fn(q)
+        ok = False
+        for n in walk(fn["body"]):
+            if n.get("k") == "if" and short(n["c"]).strip("()") in ("currentTemplate", "this->currentTemplate"):
+                for c in calls(n["then"], "collectDependencies"):
+                    a = [short(x) for x in c.get("args", [])]
+                    if len(a) == 2 and "restricted" in a[0] and arg in a[1]:
+                        ok = True
+        chk.ob(rid, "restrict|%s" % q.split("::")[-1], ok,
+               "%s does not add the symbols its size depends on to currentTemplate->restricted" % q,
+               "%s:%s" % (fn["file"], fn["line"]))
+    ie = F.fn("UTAP::DocumentBuilder::instantiation_end")
+    prop = False
+    for n in walk(ie["body"]):
+        if n.get("k") == "for":
+            for i in walk(n["body"]):
+                if i.get("k") == "if" and "restricted" in short(i["c"]) and "find" in short(i["c"]) and \
+                        any("restricted" in short(c["args"][0]) for c in calls(i["then"], "collectDependencies") if c.get("args")):
+                    prop = True
+    chk.ob(rid, "propagate|instantiation_end", prop,
+           "instantiation_end does not propagate restriction from a restricted parameter to the symbols of its argument",
+           "%s:%s" % (ie["file"], ie["line"]))
+    vp = _fn(F, "visitProcess")
+    al = G.collect_aliases(vp)
+    gate = False
+    for g in G.find_gates(vp, al):
+        if g.reports and any(a[0] in ("operator!=", "!=") or "find" in str(a) for a in g.atoms) and \
+                "restricted" in short(g.ifnode["c"]):
+            gate = True
+    chk.ob(rid, "gate|visitProcess", gate,
+           "visitProcess does not reject an unbound parameter that is in the process's restricted set",
+           "%s:%s" % (vp["file"], vp["line"]))
